@@ -122,10 +122,11 @@ Definition Q_HI : float := (PERFECT_CONNECTION_BONUS * MAX_RTT_BONUS)%float.
 Definition q_rangeb (q : float) : bool := (Q_LO <=? q)%float && (q <=? Q_HI)%float.
 
 (** A link state that the rest of the sender can produce: the window is not negative
-    (C06: it stays in [1000, 60000]), the queue length is a length, and the cached quality
+    (C06: it stays in [1000, 60000]), the queue length is a length, the CC target is a u64, and the cached quality
     multiplier is a value [calculate_quality_multiplier] can return (or the initial 1.0). *)
 Definition wf_pubb (c : link) : bool :=
-  (0 <=? l_window c) && (l_window c <=? i32_max) && (0 <=? l_queued c).
+  (0 <=? l_window c) && (l_window c <=? i32_max) && (0 <=? l_queued c) &&
+  (0 <=? l_cct c) && (l_cct c <=? u64_max).
 Definition wf_linkb (c : link) : bool := wf_pubb c && q_rangeb (l_qmult c).
 
 Definition wf_opb (o : op) : bool :=
